@@ -4,7 +4,7 @@ CONSTANTS
   Methods = {"GET", "HEAD"}
   RPrefixes = {"B"}
   BodyToks = {"d0", "d1", "d4", "d5", "d12", "d99", "dash", "plus", "sp", "us", "comma", "x", "arab"}
-  BodyLen = 3
+  BodyLen = 2
   CondRanges = {"r1to4", "bad"}
   MaxReq = 6
 CHECK_DEADLOCK FALSE
